@@ -402,6 +402,15 @@ func runC10(c *Ctx) {
 				sopts = append(sopts, parquet.DropDuplicatedRows(true))
 				c.Obs("dedup_runs", 1)
 			}
+			// where the sorted runs are spilled: default memory buffers, chunked memory, or temporary files
+			switch r.Intn(4) {
+			case 1:
+				sopts = append(sopts, parquet.SortingBuffers(parquet.NewChunkBufferPool(gen.Pick(r, []int{16, 64, 4096}))))
+				c.Obs("sorting_buffers_chunked", 1)
+			case 2:
+				sopts = append(sopts, parquet.SortingBuffers(parquet.NewFileBufferPool("", "verif-c10.*")))
+				c.Obs("sorting_buffers_file", 1)
+			}
 			var buf bytes.Buffer
 			w := parquet.NewSortingWriter[c10Row](&buf, run, parquet.SortingWriterConfig(sopts...), parquet.PageBufferSize(gen.Pick(r, []int{64, 1024, 65536})))
 			for lo := 0; lo < n; {
